@@ -59,9 +59,16 @@ def _counted_in_combined(l):
         while r[0] == "sub" and not (r[2][0] == "const" and isinstance(r[2][1], str)):
             sels.append(r[2])
             r = r[1]
-        if not (r[0] == "sub" and r[2] == ("const", "geographic_unit_fips") and r[1][0] == "attr" and r[1][2] == "data"
-                and "CombinedDataHandler(" in ir.show(r[1][1], maxdepth=2)):
+        if not (r[0] == "sub" and r[2] == ("const", "geographic_unit_fips")):
             continue
+        combined = r[1][0] == "attr" and r[1][2] == "data" and "CombinedDataHandler(" in ir.show(r[1][1], maxdepth=2)
+        feed = r[1] == ("param", "current_data") or (r[1][0] == "phi" and ("param", "current_data") in (r[1][2], r[1][3])
+                                                     and "isinstance(current_data" in ir.show(r[1][1], maxdepth=3))
+        if not (combined or feed):
+            continue
+        if combined:
+            return True, False, ("the combined data (baseline join feed): rows that the 'drop' policy removed because a result is missing, and units "
+                                 "that are not in the baseline, are not in it - a second row of such a reporting unit is neither rejected nor counted")
         frame = r[1]
 
         def reporting_mask(m):
@@ -325,8 +332,9 @@ def check(ctx):
             on_R = any(_get_units_elem(x, 0) for x in ir.walk(l))
             gt1 = any(x[0] == "cmp" and x[1] == ">" and x[3] == ("const", 1) for x in ir.walk(l))
             thr = last[0][3] == ("const", 0) and last[0][1] in (">", "!=")
-            # F30: the ids have to be counted BEFORE the exclusion rules of get_units: in the combined data (baseline join feed),
-            # over the rows of every id that has a row at or above the threshold (or over all rows)
+            # F30 / F33: the ids have to be counted BEFORE the exclusion rules of get_units: in the feed itself (or in the combined data,
+            # baseline join feed - which misses units that are not modelled), over the rows of every id that has a row at or above the
+            # threshold (or over all rows)
             on_combined, sel_ok, sel_txt = _counted_in_combined(l)
             if uses_counts and gt1 and thr and on_R and not on_combined:
                 ctx.ob("C14.R5.duplicates", f"{ge.qualname}|duplicate ids rejected", False, ge.where(n),
@@ -336,8 +344,8 @@ def check(ctx):
                 continue
             if uses_counts and gt1 and thr and on_combined:
                 ctx.ob("C14.R5.duplicates", f"{ge.qualname}|duplicate ids rejected", sel_ok, ge.where(n),
-                       "raises when the id of a unit that has a row at or above the threshold occurs more than once in the combined data (before "
-                       "any exclusion rule)" if sel_ok else f"ids are counted in the combined data but over {sel_txt}: not every reporting unit is covered")
+                       "raises when the id of a unit that has a row at or above the threshold occurs more than once in the feed / the combined data "
+                       "(before any exclusion rule)" if sel_ok else f"ids are counted before the exclusion rules but over {sel_txt}: not every reporting unit is covered")
                 continue
             ok = uses_counts and on_R and gt1 and thr
             # other exact idioms: R[id].duplicated() / R.duplicated(subset=id) selecting rows, length > 0
